@@ -100,7 +100,7 @@ def wfTree (isMk : Atom → Bool) : TNode → Bool
   | .mk toks kids =>
     (sem toks).isSome && startsWithAtom toks &&
     nodupB (markersOf kids) &&
-    ((atomsOf toks).filter isMk).length == kids.length &&
+    ((atomsOf toks).filter isMk).all (fun a => (markersOf kids).contains a) &&
     wfKids isMk kids toks
 def wfKids (isMk : Atom → Bool) : List (Atom × Bool × TNode) → List Tok → Bool
   | [], _ => true
